@@ -200,15 +200,7 @@ Definition decimal_ok (kv : list (string * json)) (t : string) : bool :=
   | _ => true
   end.
 
-(* the parser's stricter reading of a default under a DICT-form float/double type: a float literal *)
-Definition prim_default_ok_strict (t : string) (d : json) : bool :=
-  if String.eqb t "float" || String.eqb t "double" then match d with JFloat _ => true | _ => false end
-  else prim_default_ok t d.
-
 Section Open.
-  (* [strict_float] = false: the specification.  true: additionally demand a float literal as the
-     default under a dict-form float/double type (the fragment the code accepts, see C11_accepts) *)
-  Variable strict_float : bool.
   (* valid (schema) (namespace) (definitions so far) (default of the enclosing field) = definitions afterwards *)
   Variable rec : json -> string -> defs -> option json -> option defs.
 
@@ -274,8 +266,7 @@ Section Open.
         match jget "type" kv with
         | Some (JStr t) =>
             if negb (decimal_ok kv t) then None
-            else if spec_is_prim t then
-              (if opt_ok (if strict_float then prim_default_ok_strict t else prim_default_ok t) d then Some ds else None)
+            else if spec_is_prim t then (if opt_ok (prim_default_ok t) d then Some ds else None)
             else if String.eqb t "array" then
               match jget "items" kv with
               | Some it => if opt_ok (fun dv => match dv with JArr _ => true | _ => false end) d
@@ -330,18 +321,14 @@ Section Open.
     end.
 End Open.
 
-Fixpoint valid_f (sf : bool) (f : nat) : json -> string -> defs -> option json -> option defs :=
+Fixpoint valid_f (f : nat) : json -> string -> defs -> option json -> option defs :=
   match f with
   | O => fun _ _ _ _ => None
-  | S f => valid_node sf (valid_f sf f)
+  | S f => valid_node (valid_f f)
   end.
 
-(* the specification *)
 Definition valid_raw (j : json) : bool :=
-  match valid_f false (S (S (jdepth j))) j "" [] None with Some _ => true | None => false end.
-(* the specification minus integer literals as defaults of dict-form float/double types *)
-Definition valid_strict (j : json) : bool :=
-  match valid_f true (S (S (jdepth j))) j "" [] None with Some _ => true | None => false end.
+  match valid_f (S (S (jdepth j))) j "" [] None with Some _ => true | None => false end.
 
 (** ---- observers of a PARSED schema (what C11 talks about) ---- *)
 Definition lsub (k : string) (rs : list (string * (pmode -> list string))) (m : pmode) : list string :=
